@@ -24,6 +24,9 @@ CLAIMS = {
  "C14": dict(level="other", ref="7/C14",
    text="Deductive core, proved for all inputs: (1) NamedQubit.__init__ raises JaqalError exactly when the literal index is not an integer value in 0..size-1 of a source whose size is known - so every qubit reference that exists (parsed, let-substituted, overridden, macro-substituted: all go through this constructor) is in range; (2) Register.__getitem__ likewise; (3) Register.resolve_qubit / NamedQubit.resolve_qubit raise JaqalError exactly when the index is out of range at some level of the alias chain and otherwise return the C06 index - never a different qubit; (4) Parameter.validate accepts exactly the property's kind table; (5) replace_gate rejects wrong macro arity. Undefined / doubly defined identifiers, non-register sources, unknown gates and slice bounds at construction are exercised by the exhaustive boundary matrix of the bounded stand-in (not proved).",
    note="Builder functions (Builder.build, add_to_context, build_map, get_gate_definition) and Register.__init__ are not under contract; IR graphs acyclic; sizes given by nested constants-of-constants are treated as unknown at construction (checked at resolution)."),
+ "C18": dict(level="other", ref="7/C18",
+   text="Deductive core, proved for all values: Parameter.validate accepts exactly the property's kind table (spec `fits`: qubit / register / integer incl. integral floats and integral float lets / float / untyped accepts anything; annotated values by their kind) and raises JaqalError otherwise - nothing else escapes; IdleGateDefinition.__init__ gives the derived gate its parent's parameter list and the name I_<parent>, and refuses prepare/measure. AbstractGate.call (positional == keyword, arity) and stretched_gates are NOT under contract (star-args / closures over loop variables are outside the verified subset): they are exercised by the bounded signature matrix, idle gates under emulation and stretched unitaries.",
+   note="Trusted: pyvc, z3; float is a real in the integrality test (no inf/nan)."),
 }
 NA_REASON = "check not built yet in this round (work in progress; DESIGN.md section 7 gives the planned contracts)"
 
